@@ -96,6 +96,8 @@ class Evaluator:
         except (Unsupported, ProgramRaised):
             raise
         except Exception as e:
+            if type(e).__name__ == "Raised" and hasattr(e, "name"):
+                raise               # a model raising what the library would raise (models.Raised): the program's exception, not an analysis gap
             raise Unsupported("subscript %s: %s" % (ast.unparse(node), e))
 
     def call(self, node, func, args, kwargs):
